@@ -44,6 +44,11 @@ def interval(w):
     return float(w.cfg["ping_interval"])
 
 
+def tick_len(w):
+    """time advances in steps of interval / tick_frac (2: pongs arrive at once or half an interval late; 4: also a quarter / three quarters)"""
+    return interval(w) / float(w.cfg.get("tick_frac", 2))
+
+
 def outstanding_age(w):
     """age of the oldest unanswered ping on the connection in use (None if none)"""
     c = w.sides[0].manager._connection
@@ -67,10 +72,12 @@ def extra_events(w):
         # the peer answers every ping in less than one interval: time may not advance (by half an interval) while a ping
         # has already been outstanding for half an interval
         age = outstanding_age(w)
-        if age is not None and age >= I / 2 - EPS:
+        T = tick_len(w)
+        if age is not None and age >= I - T - EPS:
             responsive_ok = False
+    T = tick_len(w)
     if nxt is not None and responsive_ok and w.g["ticks"] < w.cfg.get("max_ticks", 12):
-        if nxt > I / 2 + EPS:
+        if nxt > T + EPS:
             evs.append(("tick",))
         else:
             evs.append(("expire",))
@@ -86,9 +93,9 @@ def extra_apply(w, ev):
     I = interval(w)
     if k == "tick":
         w.g["ticks"] += 1
-        w.now += I / 2
+        w.now += tick_len(w)
         for s in w.sides:
-            s.reactor.rightNow += I / 2
+            s.reactor.rightNow += tick_len(w)
         return True
     if k == "expire":
         w.g["ticks"] += 1
@@ -238,6 +245,10 @@ def scenarios(tier):
     S.append(mk("responsive-stop-I1", "responsive", 1.0, stops=True, max_ticks=8, max_depth=60, max_states=400000,
                 explored=("deliver", "lose", "tick", "expire", "silence", "stop", "close")))
     S.append(mk("responsive-lose1-I1", "responsive", 1.0, lose=1, lose_both=True, max_ticks=8, dev_bound=3 if q else 4, max_depth=80))
+    # finer time: pongs that arrive a quarter, a half or three quarters of an interval after their ping
+    S.append(mk("responsive-I1-quarters", "responsive", 1.0, tick_frac=4, max_ticks=13 if q else 24, max_depth=60 if q else 90, max_states=400000))
+    if not q:
+        S.append(mk("silent-I1-quarters", "silent", 1.0, tick_frac=4, max_ticks=20 if q else 28, max_depth=70 if q else 100, max_states=400000))
     # three generations: two plain losses of a responsive connection (bookkeeping that accumulates across generations)
     S.append(mk("responsive-lose2-I1-dev", "responsive", 1.0, lose=2, lose_both=True, max_ticks=12, dev_bound=2 if q else 3, max_depth=120))
     S.append(mk("silent-lose1-I1", "silent", 1.0, lose=1, lose_both=True, max_ticks=10, dev_bound=3 if q else 4, max_depth=80))
